@@ -40,7 +40,7 @@ CHECKS["C09"] = dict(
     technique="bounded symbolic execution of query construction and evaluation (own path engine over z3; CrossHair for symbolic strings) against the documented meaning",
     text="Every vocabulary leaf and every compound to depth 2 (thorough: depth 3) is built with the real DSL and evaluated on one "
     "symbolic point (time and field value unbounded ints, operators and right-hand sides symbolic, tag/measurement values from "
-    "finite alphabets incl. missing/None/empty); asserted on every path: no exception, value == documented meaning, ~/&/| == "
+    "finite alphabets incl. missing/None/empty, so the tag and field sets may be empty - whole-set map() leaves included); asserted on every path: no exception, value == documented meaning, ~/&/| == "
     "NOT/AND/OR of the operands' own results. CrossHair repeats the tag/measurement comparisons and regex leaves with arbitrary "
     "strings (length <= 4 / <= 2).",
     design_ref="DESIGN.md 4 C09",
@@ -98,8 +98,10 @@ CHECKS["C10"] = dict(
 CHECKS["C11"] = dict(
     technique=LPE,
     text="Failing calls with a symbolic fault position (non-Point at position j of insert_multiple; update callable raising or returning "
-    "an invalid value on its i-th call; 13 invalid static arguments): the call must raise, contents must equal the model's old "
-    "contents (plus the inserted prefix), the index invariant must hold, and a following write and all reads must be correct.",
+    "an invalid value or raising a non-ValueError on its i-th call, alone or together with a static argument for an attribute that "
+    "is written before the callable's one; 13 invalid static arguments; a failed insert followed by a re-insert of the same point): "
+    "the call must raise, contents must equal the model's old contents (plus the inserted prefix), the index invariant must hold, "
+    "and a following write and all reads must be correct.",
     design_ref="DESIGN.md 4 C11",
 )
 
@@ -115,7 +117,9 @@ CHECKS["C08"] = dict(
 CHECKS["C14"] = dict(
     technique="CrossHair symbolic execution with a Union-typed symbolic value (z3) + exhaustive selector enumeration of a wrongly-typed battery through the real API",
     text="For every (entry point, slot) pair the offending value is a symbolic Union[int,float,bool,bytes,None,str,List,Dict] (CrossHair; "
-    "value slots) or ranges over a 19-literal battery (lean engine; all slots incl. dict keys, both storages, Measurement.*): "
+    "value slots) or ranges over a 19-literal battery (lean engine; all slots incl. dict keys, both storages, Measurement.*, with a "
+    "valid companion argument, as a key whose value is None, inside a list of (key, value) pairs instead of a mapping, as insert's "
+    "measurement argument or a handle name): "
     "either ValueError/TypeError is raised or the value is valid for the slot, and afterwards every stored point is well-typed.",
     design_ref="DESIGN.md 4 C14",
     note="trusted: CrossHair, z3, vf.lpe. The battery family is a finite product (exhaustion == enumeration); key slots cannot be symbolic in CrossHair (hashing realises the value).",
